@@ -631,7 +631,12 @@ pub fn run_conv(check: &Check, c: &ConvCase) -> Result<(), Fail> {
                     (None, _) => fails.push(Fail::new(format!("exit0-without-output:{cmd}"), format!("{} — {out_rel} was not written", ctx()))),
                     (Some(got), Some(exp)) => {
                         if is_image_out {
-                            match image::ImageReader::open(sb.path(&out_rel)).map_err(es).and_then(|r| r.with_guessed_format().map_err(es)).and_then(|r| r.decode().map_err(es)) {
+                            let fmt = match job {
+                                Job::BlpToImage { ext, .. } if ext == "bmp" => image::ImageFormat::Bmp,
+                                Job::BlpToImage { ext, .. } if ext == "tga" => image::ImageFormat::Tga,
+                                _ => image::ImageFormat::Png,
+                            };
+                            match image::load_from_memory_with_format(&got, fmt).map_err(es) {
                                 Err(e) => {
                                     let sig = if stale.as_deref() == Some(&got[..]) { format!("stale-output-left-in-place:{cmd}") } else { format!("exit0-with-unparseable-output:{cmd}") };
                                     fails.push(Fail::new(sig, format!("{} — {out_rel} does not decode: {e}", ctx())));
